@@ -640,6 +640,90 @@ def check_tiny_beads(ctx, jobs, results):
                      {'kind': 'oracle', 'job': dict(job, id='t'), 'block_numba': 1, 'block_pentapy': 0, 'bs': 2})
 
 
+
+# ------------------------------------------------------------------ round 6: entry points that keep the caller's x order; kernel/fallback pairs
+ORDERS = ['sorted', 'reversed', 'shuffled', 'repeated', 'appended']
+
+
+def entry_jobs(ctx):
+    """FIXED grid (no random draws except the data seed): public utilities and helper classes that do NOT sort x, under
+    every x ordering, some memory layouts; compared across the numba / pentapy environments like any oracle job."""
+    jobs = []
+
+    def add(entry, kw, order='sorted', layout='c', n=48):
+        jobs.append({'id': f'e{len(jobs)}', 'method': 'entry:' + entry, 'entry': entry, 'n': n, 'seed': 1000 + len(jobs), 'kw': kw,
+                     'bs_list': [2], 'tag': f'entry:order={order}:layout={layout}', 'order': order, 'layout': layout, 'ykind': f'{order}/{layout}'})
+    for order in ORDERS:
+        for deg in (1, 3):
+            for uw in (False, True):
+                add('pspline_smooth', {'lam': 10.0, 'num_knots': 8, 'spline_degree': deg, 'diff_order': 2, 'use_weights': uw}, order)
+        for al in (True, False):
+            add('pspline_direct', {'lam': 10.0, 'num_knots': 9, 'spline_degree': 3, 'diff_order': 2, 'allow_lower': al, 'use_weights': True}, order)
+        for deg in (0, 2, 3):
+            add('spline_basis', {'num_knots': 7, 'spline_degree': deg}, order)
+    for layout in ('strided', 'negstride'):
+        for order in ('sorted', 'shuffled'):
+            add('pspline_smooth', {'lam': 10.0, 'num_knots': 8, 'spline_degree': 3, 'diff_order': 2, 'use_weights': True}, order, layout)
+            add('whittaker_smooth', {'lam': 100.0, 'diff_order': 2, 'use_weights': True}, order, layout)
+    for d in (1, 2, 3):
+        for uw in (False, True):
+            add('whittaker_smooth', {'lam': 100.0, 'diff_order': d, 'use_weights': uw}, 'shuffled')
+        for al in (True, False):
+            for ap in (True, False):
+                add('penalized_direct', {'lam': 100.0, 'diff_order': d, 'allow_lower': al, 'allow_pentapy': ap, 'use_weights': True,
+                                         'pentapy_solver': 1 + (d % 2)}, 'shuffled')
+        add('difference_matrix', {'diff_order': d}, n=9)
+    add('optimize_window', {})
+    add('optimize_window', {'increment': 2, 'max_hits': 2})
+    for mode in ('extrapolate', 'reflect', 'edge'):
+        add('pad_edges', {'pad_length': 6, 'mode': mode}, 'shuffled')
+    add('pad_edges', {'pad_length': 6, 'mode': 'extrapolate', 'extrapolate_window': 5}, 'shuffled', 'strided')
+    add('padded_convolve', {'window': 7, 'sigma': 1.5}, 'shuffled')
+    return jobs
+
+
+def pair_cases():
+    cases = []
+    for order in ORDERS:
+        for deg, nk in ((1, 6), (2, 6), (3, 10), (3, 5)):
+            cases.append({'id': f'q{len(cases)}', 'n': 40 + 3 * len(cases) % 17, 'seed': 500 + len(cases), 'order': order, 'degree': deg,
+                          'num_knots': nk, 'allow_lower': len(cases) % 2 == 0})
+    return cases
+
+
+def check_pairs(ctx, cases, results):
+    """Every optionally compiled kernel that has a different fallback implementation (list pinned in coq/C10/Sites.v) agrees
+    with that fallback, in every environment, on sorted AND non-monotone x."""
+    ob = 'correspondence:kernel-vs-fallback pairs (design matrix routes, _numba_btb_bty vs sparse product, solve_pspline arms) on all x orders'
+    ctx.obligations.append(ob)
+    good, n = True, 0
+    for case in cases:
+        for env in ENVS:
+            r = (results[env].get('pairs') or {}).get(case['id'])
+            if r is None:
+                continue
+            ck = {'kind': 'pairs', 'case': case, 'env': list(env)}
+            ctx.case(('pairs', case['id'], env), nontrivial=case['order'] != 'sorted', kind=f'pairs:order={case["order"]}:numba={1 - env[0]}')
+            if 'exc' in r:
+                good = False
+                ctx.fail(f'pair:raises:order={case["order"]}', f'kernel / fallback pair run raised {r["exc"]} for {case} (numba blocked={env[0]})', ck)
+                continue
+            scale = r.get('scale', 1.0)
+            for k, v in sorted(r.items()):
+                if k == 'scale':
+                    continue
+                n += 1
+                tol = 1e-8 if k == 'solve_pspline:arms' else 1e-10 * scale
+                if not (v <= tol):
+                    good = False
+                    ctx.fail(f'pair:{k.split(":")[0]}:order={case["order"]}',
+                             f'{k} differs from its fallback / reference route by {v:.3e} (allowed {tol:.1e}) for x order `{case["order"]}`, '
+                             f'spline_degree={case["degree"]}, num_knots={case["num_knots"]}, n={case["n"]}, numba blocked={env[0]}, pentapy blocked={env[1]}', ck)
+    if good and n:
+        ctx.discharged.append(ob)
+    return n
+
+
 # ------------------------------------------------------------------ direct oracle
 LOOPY = set(methods.SCHEMA_1D)
 
@@ -1031,6 +1115,8 @@ def run(ctx):
             ctx.broke('corpus', f'unreadable corpus file {path}')
             continue
         jobs.append(dict(cj, id=f'corpus{k}', bs_list=BS))
+    jobs += entry_jobs(ctx)
+    pcases = pair_cases()
     bdb_cases = gen_bdb_cases(ctx)
     ps_cases = gen_ps_cases(ctx)
     tiny = tiny_beads_jobs(ctx)
@@ -1042,7 +1128,7 @@ def run(ctx):
             if env == REF[0]:
                 ch = [dict(j, perturb=REF[1]) for j in ch]
             job = {'facts': ci == 0, 'capture': (cases + ps_cases) if ci == 0 else [], 'oracle': ch + (tiny if ci == 0 else []),
-                   'bdb': bdb_cases if ci == 0 else []}
+                   'bdb': bdb_cases if ci == 0 else [], 'pairs': pcases if ci == 0 else []}
             tasks.append((env, job))
             owners.append(env)
     try:
@@ -1052,14 +1138,16 @@ def run(ctx):
         return
     results = {}
     for env, out in zip(owners, outs):
-        r = results.setdefault(env, {'facts': None, 'capture': {}, 'oracle': {}, 'bdb': {}})
+        r = results.setdefault(env, {'facts': None, 'capture': {}, 'oracle': {}, 'bdb': {}, 'pairs': {}})
         if out['facts']:
             r['facts'] = out['facts']
         r['capture'].update(out['capture'])
         r['oracle'].update(out['oracle'])
         r['bdb'].update(out.get('bdb') or {})
+        r['pairs'].update(out.get('pairs') or {})
     check_facts(ctx, results)
     ncoq = correspondence(ctx, cases, results)
+    npairs = check_pairs(ctx, pcases, results)
     nbdb = check_bdb(ctx, bdb_cases, results)
     nps = check_ps(ctx, ps_cases, results)
     check_tiny_beads(ctx, tiny, results)
@@ -1109,6 +1197,20 @@ def replay(rep):
                 bad = 1
         if not bad:
             print('replay oracle: every output agrees with the reference configuration within its allowance')
+        return bad
+    if kind == 'pairs':
+        c = dict(case['case'], id='r')
+        outs = run_workers([(tuple(env), {'pairs': [c]}) for env in ENVS])
+        bad = 0
+        for env, out in zip(ENVS, outs):
+            r = out['pairs']['r']
+            scale = r.get('scale', 1.0)
+            for k, v in sorted(r.items()):
+                if k == 'exc' or (k != 'scale' and not (v <= (1e-8 if k == 'solve_pspline:arms' else 1e-10 * scale))):
+                    print(f'replay pairs: numba blocked={env[0]} pentapy blocked={env[1]}: {k} = {v}')
+                    bad = 1
+        if not bad:
+            print('replay pairs: every kernel agrees with its fallback on this input')
         return bad
     if kind == 'capture':
         c = {'id': 'r', 'method': case['method'], 'kw': case['kw'], 'y': case['y'], 'arrays': case['arrays'], 'bs_list': BS,
